@@ -36,7 +36,7 @@ CONSTS = [
 # An efun that is in neither table breaks the tie (the check fails until it is classified).
 
 EFUN_COVERED = {
-    "explode": "explodeArray", "implode": "implodeString", "replace_string": "replaceRun/replaceFinish",
+    "explode": "explodeArray", "implode": "implodeString", "replace_string": "replaceRun/replaceFinish (pattern of 2+ characters: skip-table scan; one character pattern: replace1)",
     "allocate": "allocateArray", "allocate_buffer": "allocateBuffer", "allocate_mapping": "allocateMapping",
     "keys": "mapKeys", "values": "mapKeys", "repeat_string": "repeatString", "sprintf": "sprintfAdd/sprintfFinish (incl. %*s field widths: sprintf_pad)",
     "copy": "sameSize", "sort_array": "sameSize", "map": "sameSize", "map_array": "sameSize", "map_mapping": "sameSize",
@@ -147,6 +147,7 @@ SITES = [
     ("callbackTickBlock", "src/interpret.c", r"svalue_t\* call_efun_callback \(function_to_call_t \* ftc, int n\) \{" + W + r"svalue_t \*v;" + W + r"(?:/\*.*?\*/)?" + W + r"if \(!--eval_cost\)" + W + r"\{" + W + r"set_error_state \(ES_MAX_EVAL_COST\);" + W + r"eval_cost = CONFIG_INT \(__MAX_EVAL_COST__\);" + W + r"error", 1, None),
     ("pushSomeChecked", "src/stack.c", r"void push_some_svalues \(svalue_t \* v, int num\) \{" + W + r"STACK_CHECK \(num\);", 1, None),
     ("transferPushChecked", "src/stack.c", r"void transfer_push_some_svalues \(svalue_t \* v, int num\) \{" + W + r"STACK_CHECK \(num\);", 1, None),
+    ("replaceOneGuards", "lib/efuns/string.c", r"/\* Beek: plen == 1 \*/.{0,400}?if \(rlen != 0\)" + W + r"\{" + W + r"if \(CONFIG_INT \(__MAX_STRING_LENGTH__\) - dlen <=" + W + r"rlen\).{0,500}?dlen \+= rlen;.{0,300}?if \(CONFIG_INT \(__MAX_STRING_LENGTH__\) - dlen <= 1\).{0,300}?\*dst2\+\+ = \*src\+\+;" + W + r"dlen\+\+;", 1, None),
     ("rangeClamp", "lib/lpc/operator.c", r"if \(from < 0\)" + W + r"from = 0;" + W + r"if \(to >= v->size\)" + W + r"to = v->size - 1;" + W + r"if \(to < -1\)" + W + r"to = -1;" + W + r"if \(from > v->size\)" + W + r"from = v->size;", 1, None),
 ]
 
@@ -826,7 +827,9 @@ class C04(Prop):
                                   "repeat 2 500", "repeat 2 501", "repeat 2 -9223372036854775808", "repeat 2 9223372036854775807",
                                   "repeat 0 4611686018427387904", "repeat 3 -1", "repeat 1000 1", "repeat 4 4611686018427387904",
                                   "implode 10 100 0", "implode 100 100 0", "implode 10 90 10", "implode 10 91 10", "implode 0 5 5",
-                                  "replace 99 100 9", "replace 100 100 9", "replace 800 100 9", "replace 100 100 8", "replace 801 99 3"]))
+                                  "replace 99 100 9", "replace 100 100 9", "replace 800 100 9", "replace 100 100 8", "replace 801 99 3",
+                                  "replace1 0 333 3", "replace1 0 334 3", "replace1 1 333 3", "replace1 999 0 3", "replace1 500 166 3",
+                                  "replace1 500 167 3", "replace1 0 0 2"]))
         B.append(self.sizes_case("b-sz-derived", {"array": 50, "mapping": 80, "string": 200},
                                  ["copy_array 50", "copy_mapping 80", "sort_array 50", "map_array 50", "lower_case 200", "filter_array 50 20",
                                   "filter_array 50 0", "unique_array 50 7", "unique_array 50 0", "array_sub 50 20", "array_and 50 20",
@@ -931,7 +934,7 @@ class C04(Prop):
                               ("explode0", 1), ("aggregate", 1), ("allocate_buffer", 3), ("add_buffer", 3),
                               ("map_insert", 3), ("map_add", 3), ("map_aggregate", 1), ("join", 4), ("join_eq", 2),
                               ("join_self", 2), ("join_num", 1), ("num_join", 1), ("repeat", 5), ("implode", 3),
-                              ("replace", 3), ("sprintf", 1), ("derived", 6), ("round4", 7)])
+                              ("replace", 3), ("replace1", 2), ("sprintf", 1), ("derived", 6), ("round4", 7)])
             if k == "round4":
                 d = rng.choice(["map_compose", "map_compose_eq", "save_array", "save_string", "save_mapping", "save_nested",
                                 "copy_nested", "restore_nested", "restore_array", "restore_mapping", "regexp", "reg_assoc"])
@@ -1033,6 +1036,12 @@ class C04(Prop):
                 n = min(near(la, False), la)
                 m = rng.choice([0, 1, 5, ls // max(n, 1), ls // max(n, 1) + 1])
                 cmds.append("implode %d %d %d" % (n, min(m, ls), rng.choice([0, 1, 3])))
+            elif k == "replace1":
+                r = rng.choice([2, 3, 9])
+                b = rng.choice([0, 1, ls // r - 1, ls // r, ls // r + 1, ls // (2 * r)])
+                a = rng.choice([0, 1, max(0, ls - b * r - 1), max(0, ls - b * r), max(0, ls - b * r + 1)])
+                b = max(0, min(b, ls))
+                cmds.append("replace1 %d %d %d" % (min(a, max(0, ls - b)), b, r))
             elif k == "replace":
                 b = rng.range(1, max(1, ls // 8))
                 r = rng.choice([3, 4, 9, 20])
